@@ -716,8 +716,8 @@ func (f *Frame) execBlock(n *xnode, st *execState) {
 			// handled in mergeIn / name table
 		case *ssa.If:
 			c := f.operand(st.env, x.Cond).(Scalar).T
-			f.edge(n, st, n.blk.Succs[0], tb.And(st.reach, c))
-			f.edge(n, st, n.blk.Succs[1], tb.And(st.reach, tb.Not(c)))
+			f.edgeUnder(n, st, n.blk.Succs[0], tb.And(st.reach, c), c)
+			f.edgeUnder(n, st, n.blk.Succs[1], tb.And(st.reach, tb.Not(c)), tb.Not(c))
 			return
 		case *ssa.Jump:
 			f.edge(n, st, n.blk.Succs[0], st.reach)
@@ -886,6 +886,81 @@ func (f *Frame) runDefers(st *execState) {
 		f.e.noteAbstract(f, "deferred call "+d.Call.String())
 		f.deferredCall(st, d)
 	}
+}
+
+// literalsOf collects the atoms a condition fixes: c = l1 && ... && lk gives
+// each li its truth value; !(a || b) fixes a and b to false.
+func (e *Engine) literalsOf(c *Term, pos bool, out map[*Term]*Term) {
+	tb := e.tb
+	switch {
+	case c.op == "not":
+		e.literalsOf(c.args[0], !pos, out)
+	case c.op == "and" && pos, c.op == "or" && !pos:
+		for _, a := range c.args {
+			e.literalsOf(a, pos, out)
+		}
+	case c.IsTrue() || c.IsFalse():
+	default:
+		out[c] = tb.BoolC(pos)
+	}
+}
+
+// edgeUnder is edge for a conditional branch: values flowing along the edge
+// are simplified under the branch condition (ite(c, x, y) becomes x where c is
+// known), which keeps merged results of inlined calls from accumulating
+// case distinctions that the path has already decided.
+func (f *Frame) edgeUnder(n *xnode, st *execState, v *ssa.BasicBlock, cond, branch *Term) {
+	if cond.IsFalse() {
+		return
+	}
+	lits := map[*Term]*Term{}
+	f.e.literalsOf(branch, true, lits)
+	if len(lits) == 0 {
+		f.edge(n, st, v, cond)
+		return
+	}
+	tb := f.e.tb
+	cache := map[int]*Term{}
+	sub := func(t *Term) *Term { return tb.SubstC(t, lits, cache) }
+	env2 := make(map[ssa.Value]Val, len(st.env))
+	for k, val := range st.env {
+		env2[k] = mapVal(val, sub)
+	}
+	st2 := *st
+	st2.env = env2
+	f.edge(n, &st2, v, cond)
+}
+
+func mapVal(v Val, f func(*Term) *Term) Val {
+	switch x := v.(type) {
+	case Scalar:
+		return Scalar{f(x.T)}
+	case SliceV:
+		return SliceV{f(x.Ptr), f(x.Len), f(x.Cap)}
+	case StringV:
+		return StringV{f(x.Ptr), f(x.Len)}
+	case IfaceV:
+		return IfaceV{f(x.Typ), f(x.Data)}
+	case TupleV:
+		r := make([]Val, len(x.Elems))
+		for i, el := range x.Elems {
+			r[i] = mapVal(el, f)
+		}
+		return TupleV{r}
+	case StructV:
+		r := make([]Val, len(x.Fields))
+		for i, el := range x.Fields {
+			r[i] = mapVal(el, f)
+		}
+		return StructV{r}
+	case ArrayV:
+		r := make([]Val, len(x.Elems))
+		for i, el := range x.Elems {
+			r[i] = mapVal(el, f)
+		}
+		return ArrayV{r}
+	}
+	return v
 }
 
 func (f *Frame) edge(n *xnode, st *execState, v *ssa.BasicBlock, cond *Term) {
